@@ -297,3 +297,39 @@ package sorted_set
 //@     invariant forall v Value :: has(set.members, v) <==> (old(has(set.members, v)) && !(exists a int :: 0 <= a && a < i && members[a].Value == v))
 //@     invariant forall v Value :: has(set.members, v) ==> set.members[v] == old(set.members[v])
 //@     invariant remaining: forall w Value :: has(set.members, w) ==> (exists b int :: i <= b && b < len(members) && members[b].Value == w)
+
+// The remaining single-key readers: a wrong-typed key is refused, and nothing stored changes (keyspace and the sorted set's
+// member map). Their replies (counts, ranks, ranges) are built from a sorted copy in loops and are not specified here.
+//@ spec zreadercontent(params internal.HandlerFuncParams) bool = onzset(params) ==> (forall v Value :: (has(old(aszset(zval(params, zkey(params)))).members, v) <==> old(has(zmembers(params), v))) && old(aszset(zval(params, zkey(params)))).members[v] == old(zmembers(params)[v]))
+//@ func handleZCOUNT props C17,C12,C13
+//@   requires generic.henv(params)
+//@   assumes own-cmd: len(params.Command) >= 2 ==> disjointarr(params.Command, $srv.keysWithExpiry.keys[dbof(params.Context)])
+//@   assumes stored-wf: len(params.Command) >= 2 && iszset(zval(params, zkey(params))) ==> zwf(aszset(zval(params, zkey(params))))
+//@   ensures {C17} arity: len(params.Command) != 4 ==> result1 != nil
+//@   ensures {C17} wrongtype: len(params.Command) == 4 && result1 == nil && old(zlive(params, zkey(params))) ==> old(iszset(zval(params, zkey(params))))
+//@   ensures {C13,C17} pure: zpure(params)
+//@   ensures {C13,C17} content: zreadercontent(params)
+//@ func handleZLEXCOUNT props C17,C12,C13
+//@   requires generic.henv(params)
+//@   assumes own-cmd: len(params.Command) >= 2 ==> disjointarr(params.Command, $srv.keysWithExpiry.keys[dbof(params.Context)])
+//@   assumes stored-wf: len(params.Command) >= 2 && iszset(zval(params, zkey(params))) ==> zwf(aszset(zval(params, zkey(params))))
+//@   ensures {C17} arity: len(params.Command) != 4 ==> result1 != nil
+//@   ensures {C17} wrongtype: len(params.Command) == 4 && result1 == nil && old(zlive(params, zkey(params))) ==> old(iszset(zval(params, zkey(params))))
+//@   ensures {C13,C17} pure: zpure(params)
+//@   ensures {C13,C17} content: zreadercontent(params)
+//@ func handleZMSCORE props C17,C12,C13
+//@   requires generic.henv(params)
+//@   assumes own-cmd: len(params.Command) >= 2 ==> disjointarr(params.Command, $srv.keysWithExpiry.keys[dbof(params.Context)])
+//@   assumes stored-wf: len(params.Command) >= 2 && iszset(zval(params, zkey(params))) ==> zwf(aszset(zval(params, zkey(params))))
+//@   ensures {C17} arity: len(params.Command) < 3 ==> result1 != nil
+//@   ensures {C17} wrongtype: len(params.Command) >= 3 && result1 == nil && old(zlive(params, zkey(params))) ==> old(iszset(zval(params, zkey(params))))
+//@   ensures {C13,C17} pure: zpure(params)
+//@   ensures {C13,C17} content: zreadercontent(params)
+//@ func handleZRANK props C17,C12,C13
+//@   requires generic.henv(params)
+//@   assumes own-cmd: len(params.Command) >= 2 ==> disjointarr(params.Command, $srv.keysWithExpiry.keys[dbof(params.Context)])
+//@   assumes stored-wf: len(params.Command) >= 2 && iszset(zval(params, zkey(params))) ==> zwf(aszset(zval(params, zkey(params))))
+//@   ensures {C17} arity: len(params.Command) < 3 || len(params.Command) > 4 ==> result1 != nil
+//@   ensures {C17} wrongtype: (len(params.Command) == 3 || len(params.Command) == 4) && result1 == nil && old(zlive(params, zkey(params))) ==> old(iszset(zval(params, zkey(params))))
+//@   ensures {C13,C17} pure: zpure(params)
+//@   ensures {C13,C17} content: zreadercontent(params)
